@@ -135,6 +135,38 @@ func VerifEKM(version, suiteID uint16, masterSecret, clientRandom, serverRandom 
 	return ekmFromMasterSecret(version, suite, masterSecret, clientRandom, serverRandom)(label, context, length)
 }
 
+// VerifKeyBlocks evaluates keysFromMasterSecret twice in a row for one master secret: with the hello randoms
+// of an original connection and then with those of a connection resumed from it.  Each block is the six
+// slices clientMAC | serverMAC | clientKey | serverKey | clientIV | serverIV concatenated; the lengths are the
+// suite's.  ok is false if no suite table has suiteID.
+func VerifKeyBlocks(version, suiteID uint16, masterSecret, cr1, sr1, cr2, sr2 []byte) (macLen, keyLen, ivLen int, b1, b2 []byte, ok bool) {
+	var suite *cipherSuite
+	for _, s := range cipherSuites {
+		if s.id == suiteID {
+			suite = s
+		}
+	}
+	for _, s := range gmCipherSuites {
+		if s.id == suiteID {
+			suite = s
+		}
+	}
+	if suite == nil {
+		return 0, 0, 0, nil, nil, false
+	}
+	cat := func(cr, sr []byte) []byte {
+		a, b, c, d, e, f := keysFromMasterSecret(version, suite, masterSecret, cr, sr, suite.macLen, suite.keyLen, suite.ivLen)
+		var out []byte
+		for _, x := range [][]byte{a, b, c, d, e, f} {
+			out = append(out, x...)
+		}
+		return out
+	}
+	b1 = cat(cr1, sr1)
+	b2 = cat(cr2, sr2)
+	return suite.macLen, suite.keyLen, suite.ivLen, b1, b2, true
+}
+
 // VerifLRUDump returns the (sessionKey, state) entries of an LRU client session
 // cache front (most recently used) to back, the sorted-by-list-order key set of
 // its map, and its capacity.  ok is false if cache is not the package's LRU cache.
